@@ -592,6 +592,6 @@ func init() {
 		Run:    run,
 		Replay: replayFn,
 		Guards: guards,
-		Budget: map[string]time.Duration{"quick": 6 * time.Minute, "thorough": 40 * time.Minute},
+		Budget: map[string]time.Duration{"quick": 6 * time.Minute, "thorough": 30 * time.Minute},
 	})
 }
